@@ -18,7 +18,7 @@ BASES = ["tls12", "tls13", "quic", "two", "two_quic"]
 
 def describe(tier):
     return {
-        "rule": "bases: TLS 1.2 (1 line), TLS 1.3 (5 lines), QUIC (4 lines), TLS 1.2 + TLS 1.3 in one capture (6 lines). k=1: every "
+        "rule": "bases: TLS 1.2 (1 line), TLS 1.3 (5 lines), QUIC (4 lines), TLS 1.2 + TLS 1.3 in one capture (6 lines), two QUIC connections one after the other (8 lines); container little- or big-endian; also commented-out key lines, early-traffic / early-exporter lines of the same client random, a DSB in front of the interface block, one DSB per connection, long key logs with the capture's lines across 4096..262144 characters (one DSB of ~470 kB). k=1: every "
                 "alternative of every dimension (all line permutations; CRLF / no final newline; comment, blank, unrelated, "
                 "duplicate line at every position; 4 hex-case variants; DSB at every packet position, every split into 2 or 3 DSBs, "
                 "additional DSB without secrets, every file/DSB split, DSB only without -s from 3 working directories); k=2: all "
